@@ -87,6 +87,7 @@ func main() {
 	feemarketFacts(byPath[mod+"x/feemarket/keeper"])
 	chainConfigFacts(byPath[mod+"x/evm/types"])
 	cpcExecutorWrites(byPath[mod+"x/cpc/keeper"])
+	stakingExecutorFacts(byPath[mod+"x/cpc/keeper"])
 	indexerFacts(byPath[mod+"indexer"], byPath[mod+"server"])
 
 	// the pinned fork (module cache)
@@ -967,4 +968,131 @@ func indexerFacts(idx, srv *packages.Package) {
 		})
 	}
 	facts["indexerRestartRule"] = conds
+}
+
+// ---------------------------------------------------------------------------------------------
+// staking precompile: who the executors act for (C11) and on which context the distribution
+// queries (which close reward periods, i.e. write) are evaluated (C12).
+
+func stakingExecutorFacts(p *packages.Package) {
+	if p == nil {
+		fail("x/cpc/keeper not loaded")
+		return
+	}
+	type exec struct {
+		Recv              string `json:"recv"`
+		CallerParam       string `json:"callerParam"`
+		ReadsCaller       bool   `json:"readsCaller"`
+		DelegatorFrom     string `json:"delegatorFrom"`     // right-hand side of `delegator := …` / `from := …`
+		CallerVsDelegator string `json:"callerVsDelegator"` // the `caller.Address() != X` guard, if any
+		VerifyArgs        string `json:"verifyArgs"`        // "<expected>|<message>|<chain id>" of eip712.VerifySignature, if called
+		VerifyGuard       bool   `json:"verifyGuard"`       // `if !match { return … }` follows
+	}
+	var execs []exec
+	type qcall struct {
+		Func   string `json:"func"`
+		Method string `json:"method"`
+		Ctx    string `json:"ctx"`
+		CtxDef string `json:"ctxDef"`
+	}
+	var qcalls []qcall
+	for _, f := range p.Syntax {
+		fn := p.Fset.Position(f.Pos()).Filename
+		if isTest(fn) || !strings.HasSuffix(fn, "precompiles_staking.go") {
+			continue
+		}
+		for _, d := range f.Decls {
+			fd, ok := d.(*ast.FuncDecl)
+			if !ok || fd.Body == nil || fd.Recv == nil || len(fd.Recv.List) == 0 {
+				continue
+			}
+			recv := strings.TrimPrefix(typeString(fd.Recv.List[0].Type), "*")
+			// context definitions inside this function: `x, _ := y.CacheContext()` / `x := env.ctx`
+			defs := map[string]string{}
+			ast.Inspect(fd.Body, func(n ast.Node) bool {
+				as, ok := n.(*ast.AssignStmt)
+				if !ok || len(as.Rhs) != 1 || len(as.Lhs) == 0 {
+					return true
+				}
+				if id, ok := as.Lhs[0].(*ast.Ident); ok {
+					if _, seen := defs[id.Name]; !seen {
+						defs[id.Name] = exprStringDeep(as.Rhs[0])
+					}
+				}
+				return true
+			})
+			ast.Inspect(fd.Body, func(n ast.Node) bool {
+				ce, ok := n.(*ast.CallExpr)
+				if !ok {
+					return true
+				}
+				sel, ok := ce.Fun.(*ast.SelectorExpr)
+				if !ok || len(ce.Args) == 0 {
+					return true
+				}
+				if sel.Sel.Name == "DelegationRewards" || sel.Sel.Name == "DelegationTotalRewards" {
+					ctx := exprStringDeep(ce.Args[0])
+					qcalls = append(qcalls, qcall{Func: recv + "." + fd.Name.Name, Method: sel.Sel.Name, Ctx: ctx, CtxDef: defs[ctx]})
+				}
+				return true
+			})
+			if fd.Name.Name != "Execute" {
+				continue
+			}
+			e := exec{Recv: recv}
+			if ps := fd.Type.Params.List; len(ps) > 0 && len(ps[0].Names) > 0 {
+				e.CallerParam = ps[0].Names[0].Name
+			}
+			for i, st := range fd.Body.List {
+				_ = i
+				ast.Inspect(st, func(n ast.Node) bool {
+					switch x := n.(type) {
+					case *ast.CallExpr:
+						s := exprStringDeep(x.Fun)
+						if s == "caller.Address" {
+							e.ReadsCaller = true
+						}
+						if strings.HasSuffix(s, "eip712.VerifySignature") && len(x.Args) == 6 {
+							e.VerifyArgs = exprStringDeep(x.Args[0]) + "|" + exprStringDeep(x.Args[1]) + "|" + exprStringDeep(x.Args[5])
+						}
+					case *ast.AssignStmt:
+						if len(x.Lhs) == 1 && len(x.Rhs) == 1 {
+							if id, ok := x.Lhs[0].(*ast.Ident); ok && (id.Name == "delegator" || id.Name == "from") && e.DelegatorFrom == "" {
+								e.DelegatorFrom = exprStringDeep(x.Rhs[0])
+							}
+						}
+					case *ast.IfStmt:
+						c := condString(x.Cond)
+						if strings.HasPrefix(c, "caller.Address() != ") && returnsError(x.Body) {
+							e.CallerVsDelegator = c
+						}
+						if c == "!match" && returnsError(x.Body) {
+							e.VerifyGuard = true
+						}
+					}
+					return true
+				})
+			}
+			execs = append(execs, e)
+		}
+	}
+	sort.Slice(execs, func(i, j int) bool { return execs[i].Recv < execs[j].Recv })
+	sort.Slice(qcalls, func(i, j int) bool { return qcalls[i].Func+qcalls[i].Method < qcalls[j].Func+qcalls[j].Method })
+	if len(execs) == 0 {
+		fail("no staking executors found")
+	}
+	facts["stakingExecutors"] = execs
+	facts["distQuerierCalls"] = qcalls
+}
+
+func returnsError(b *ast.BlockStmt) bool {
+	if b == nil || len(b.List) == 0 {
+		return false
+	}
+	rs, ok := b.List[len(b.List)-1].(*ast.ReturnStmt)
+	if !ok || len(rs.Results) != 2 {
+		return false
+	}
+	id, ok := rs.Results[0].(*ast.Ident)
+	return ok && id.Name == "nil" && exprStringDeep(rs.Results[1]) != "nil"
 }
